@@ -15,7 +15,8 @@ ASSUMPTIONS = ["default TransportTuning; one-way latency 1 ms", "with random los
 REQUIRED_MONITORS = {"request_body": 200, "response_body": 200, "block1_options": 150, "block2_options": 150, "misbehaving_server": 60, "negotiation": 60}
 
 LENGTHS = [0, 1, 15, 16, 17, 31, 32, 33, 63, 64, 65, 127, 128, 129, 255, 256, 257, 511, 512, 513, 1023, 1024, 1025, 1124, 1125, 2047, 2048, 2049, 5000, 20000]
-MISBEHAVIOURS = ["b1-wrong-num", "b1-wrong-num-final", "b1-more-on-final", "b1-continue-on-final", "b2-wrong-num", "b2-short-with-more", "etag-changes"]
+ETAG_MIS = ("etag-changes", "etag-vanishes", "etag-appears")
+MISBEHAVIOURS = ["b1-wrong-num", "b1-wrong-num-final", "b1-more-on-final", "b1-continue-on-final", "b2-wrong-num", "b2-short-with-more", "etag-changes", "etag-vanishes", "etag-appears"]
 
 
 def plan(tier, seed):
@@ -53,7 +54,7 @@ def gen(r, k, tier):
         mis = r.choice(MISBEHAVIOURS)
         loss = None
     mis_at = r.randrange(0, 3)
-    if mis == "etag-changes":
+    if mis in ETAG_MIS:
         mis_at = r.randrange(1, 4)  # a change from the very first block on is a consistent representation, not a change
     return {"method": method, "szx": szx, "cmax": cmax, "req_len": req_len, "resp_len": resp_len, "red1": red1, "red2": red2, "loss": loss, "mis": mis, "mis_at": mis_at, "etag": r.choice([True, True, False])}
 
@@ -78,7 +79,7 @@ def run_case(p, seed, rep, case):
     async def main(loop):
         pol = simnet.RandomPolicy(random.Random(seed + 1), **p["loss"]) if p["loss"] else simnet.Policy()
         net = simnet.SimNet(loop, pol)
-        srv = refblock.BlockServer(net, "10.0.0.1", 5683, szx=p["szx"], representation=rep_body, etag=b"v1" if (p["etag"] or p["mis"] == "etag-changes") else b"", reduce_block1_at=p["red1"], reduce_block2_at=p["red2"], misbehave=p["mis"], misbehave_at=p["mis_at"])
+        srv = refblock.BlockServer(net, "10.0.0.1", 5683, szx=p["szx"], representation=rep_body, etag=b"" if p["mis"] == "etag-appears" else b"v1" if (p["etag"] or p["mis"] in ETAG_MIS) else b"", reduce_block1_at=p["red1"], reduce_block2_at=p["red2"], misbehave=p["mis"], misbehave_at=p["mis_at"])
         cli = await simnet.make_context(net, "10.0.0.2", 40001, None, server=False)
         m = aiocoap.Message(code=getattr(aiocoap, p["method"]), uri="coap://10.0.0.1/res", payload=req_body)
         m.remote.maximum_block_size_exp = p["cmax"]
@@ -206,7 +207,7 @@ def misbehaviour_manifested(p, srv, req_body, rep_body):
         if mis == "b2-short-with-more":
             return len(srv.served) > at and srv.served[at][0] + srv.served[at][1] < len(rep_body) and any(l not in (16, 32, 64, 128, 256, 512, 1024) for _, l in srv.served[at : at + 1])
         return len(srv.served) > at
-    if mis == "etag-changes":
+    if mis in ETAG_MIS:
         # the representation changed between the first block and a later one
         return at >= 1 and len(srv.served) > at and srv.served[0][0] == 0
     return False
